@@ -45,6 +45,9 @@ pub struct Case {
     pub mode: MeshMode,
     pub nodes: u8,
     pub ops: Vec<Op>,
+    /// router mode: the last node additionally claims the default route 0.0.0.0/0
+    #[serde(default)]
+    pub default_route: bool,
 }
 
 fn mac(node: u8, host: u8) -> [u8; 6] {
@@ -70,6 +73,9 @@ fn run_generic<P: Protocol>(ctx: &Ctx, c: &Case) -> Vec<Viol> {
             MeshMode::Router => {
                 cfg.mode = Mode::Router;
                 cfg.claims = vec![format!("10.{}.0.0/16", i + 1)];
+                if c.default_route && i == n - 1 {
+                    cfg.claims.push("0.0.0.0/0".to_string());
+                }
             }
             MeshMode::Switch => cfg.mode = Mode::Switch,
             MeshMode::Hub => cfg.mode = Mode::Hub,
@@ -142,7 +148,15 @@ fn run_generic<P: Protocol>(ctx: &Ctx, c: &Case) -> Vec<Viol> {
                             assert!(ref_matches(&r.base.data[..4], 16, &dst_key));
                             [k].into_iter().collect()
                         }
-                        _ => BTreeSet::new(), // own range and unknown destinations: nobody claims them at this node
+                        // own range and unknown destinations: nobody claims them at this node - unless a peer
+                        // announced the default route
+                        _ => {
+                            if c.default_route && at != n - 1 {
+                                [n - 1].into_iter().collect()
+                            } else {
+                                BTreeSet::new()
+                            }
+                        }
                     },
                     MeshMode::Switch => match learned[at].get(&dst_key) {
                         Some(p) => [*p].into_iter().collect(),
@@ -294,25 +308,30 @@ pub fn run(ctx: &Ctx) {
     let na = alphabet.len() as u64;
     for mode in [MeshMode::Router, MeshMode::Switch, MeshMode::Hub] {
         let total = na.pow(depth);
-        ctx.par_range_chunked(total, 64, |_, mut i| {
+        ctx.par_range_chunked(total * 2, 64, |_, i2| {
+            let i_orig = i2;
+            if mode != MeshMode::Router && i2 % 2 == 1 {
+                return;
+            }
+            let mut i = i2 / 2;
             let mut ops = vec![];
             for _ in 0..depth {
                 ops.push(alphabet[(i % na) as usize]);
                 i /= na;
             }
-            let c = Case { mode, nodes: 3, ops };
+            let c = Case { mode, nodes: 3, ops, default_route: mode == MeshMode::Router && i_orig % 2 == 1 };
             let v = run_case(ctx, &c);
             ctx.report(v);
         });
-        ctx.subspace(&format!("{:?}: all sequences of length {} over an {}-op alphabet on 3 nodes", mode, depth, na), total, true);
+        ctx.subspace(&format!("{:?}: all sequences of length {} over an {}-op alphabet on 3 nodes (router: with and without a default-route claim)", mode, depth, na), total * 2, true);
     }
     let n: u32 = ctx.tier.pick(2_000, 20_000);
     ctx.proptest(
         "pt-forward",
         n,
-        || (prop_oneof![Just(MeshMode::Router), Just(MeshMode::Switch), Just(MeshMode::Hub)], 2u8..=5, proptest::collection::vec(op_strategy(), 1..100)),
-        |(mode, nodes, ops)| {
-            let c = Case { mode: *mode, nodes: *nodes, ops: ops.clone() };
+        || (prop_oneof![Just(MeshMode::Router), Just(MeshMode::Switch), Just(MeshMode::Hub)], 2u8..=5, proptest::collection::vec(op_strategy(), 1..100), any::<bool>()),
+        |(mode, nodes, ops, dr)| {
+            let c = Case { mode: *mode, nodes: *nodes, ops: ops.clone(), default_route: *dr };
             let v = run_case(ctx, &c);
             if ops.len() < 6 {
                 ctx.sample("sequence", || serde_json::to_value(&c).unwrap());
